@@ -1,29 +1,1083 @@
+//! probe-threads: no-libc executable driven over stdin/stdout by /verif/harness/c05 (properties C05, C06).
+//!
+//! It installs a COUNTING `#[global_allocator]` that wraps the repository's `Dlmalloc` under the repository's
+//! `Mutex`: a fixed-capacity static live table (no allocation inside the allocator) flags double free / free of a
+//! non-live pointer / dealloc with a layout different from alloc, and an append-only per-batch log records every
+//! allocation of the batch with the thread ids (gettid) that allocated and freed it.
+//!
+//! All random choices arrive from the driver. Wire format: `u32 len | payload`, little endian (see `Spec::parse`
+//! and `emit_report`; the driver's `wire.rs` is the mirror image).
 #![no_std]
 #![no_main]
 extern crate alloc;
 
+use core::alloc::{GlobalAlloc, Layout};
+use core::cell::UnsafeCell;
+use core::hint::black_box;
+use core::sync::atomic::{AtomicU32, AtomicU64, AtomicUsize, Ordering::SeqCst};
+
+use alloc::vec::Vec;
+use rusl::platform::{STDIN, STDOUT};
 use tiny_std::allocator::dlmalloc::Dlmalloc;
 use tiny_std::sync::Mutex;
+use tiny_std::thread::JoinHandle;
 
-struct Counting(Mutex<Dlmalloc>);
+// ------------------------------------------------------------------------------------------------
+// counting allocator
+// ------------------------------------------------------------------------------------------------
+
+const TABLE_CAP: usize = 8192; // power of two, open addressing; live blocks stay far below
+const LOG_CAP: usize = 4096;
+
+#[derive(Clone, Copy)]
+struct Entry {
+    ptr: usize, // 0 = empty
+    size: usize,
+    align: u32,
+    state: u8, // 1 live, 2 freed (tombstone, remembered to tell a double free from a wild free)
+    log_epoch: u32,
+    log_idx: u32,
+}
+
+#[derive(Clone, Copy)]
+struct LogRec {
+    ptr: u64,
+    size: u64,
+    align: u32,
+    alloc_tid: u32,
+    free_tid: u32, // 0 = still live
+    spec: u8,      // i+1 when allocated by the main thread inside the spawn call of spec i
+    mismatch: u8,  // dealloc layout differed
+    d_size: u64,   // layout passed to dealloc when it differed
+    d_align: u32,
+}
+
+const E0: Entry = Entry { ptr: 0, size: 0, align: 0, state: 0, log_epoch: 0, log_idx: 0 };
+const L0: LogRec = LogRec { ptr: 0, size: 0, align: 0, alloc_tid: 0, free_tid: 0, spec: 0, mismatch: 0, d_size: 0, d_align: 0 };
+
+struct Book {
+    table: [Entry; TABLE_CAP],
+    log: [LogRec; LOG_CAP],
+    log_len: usize,
+    epoch: u32,
+    live_count: u64,
+    live_bytes: u64,
+    // flags (reset per batch)
+    double_free: u32,
+    nonlive_free: u32,
+    layout_mismatch: u32,
+    alloc_dup_live: u32,
+    log_overflow: u32,
+    table_overflow: u32,
+    old_freed: u32, // blocks allocated before this batch and freed during it
+    null_allocs: u32,
+}
+
+struct Shared {
+    dl: Dlmalloc,
+}
+
+struct Counting {
+    m: Mutex<Shared>,
+    // only touched while `m` is held
+    book: UnsafeCell<Book>,
+}
 unsafe impl Sync for Counting {}
 
-unsafe impl core::alloc::GlobalAlloc for Counting {
-    unsafe fn alloc(&self, l: core::alloc::Layout) -> *mut u8 {
-        self.0.lock().malloc(l.size(), l.align())
+static REC_SPEC: AtomicU32 = AtomicU32::new(0);
+static MAIN_TID: AtomicU32 = AtomicU32::new(0);
+
+#[inline]
+fn gettid() -> u32 {
+    unsafe { sc::syscall!(GETTID) as u32 }
+}
+
+#[inline]
+fn slot_of(p: usize) -> usize {
+    ((p >> 3).wrapping_mul(0x9E37_79B9_7F4A_7C15) >> 40) & (TABLE_CAP - 1)
+}
+
+impl Book {
+    fn find(&self, p: usize) -> Option<usize> {
+        let mut s = slot_of(p);
+        for _ in 0..TABLE_CAP {
+            let e = &self.table[s];
+            if e.state == 0 {
+                return None;
+            }
+            if e.ptr == p {
+                return Some(s);
+            }
+            s = (s + 1) & (TABLE_CAP - 1);
+        }
+        None
     }
-    unsafe fn dealloc(&self, p: *mut u8, _l: core::alloc::Layout) {
-        self.0.lock().free(p);
+    fn on_alloc(&mut self, p: usize, l: Layout, tid: u32) {
+        if p == 0 {
+            self.null_allocs += 1;
+            return;
+        }
+        let mut idx = u32::MAX;
+        if self.log_len < LOG_CAP {
+            let spec = if tid == MAIN_TID.load(SeqCst) { REC_SPEC.load(SeqCst) as u8 } else { 0 };
+            self.log[self.log_len] = LogRec { ptr: p as u64, size: l.size() as u64, align: l.align() as u32, alloc_tid: tid, free_tid: 0, spec, mismatch: 0, d_size: 0, d_align: 0 };
+            idx = self.log_len as u32;
+            self.log_len += 1;
+        } else {
+            self.log_overflow += 1;
+        }
+        let new = Entry { ptr: p, size: l.size(), align: l.align() as u32, state: 1, log_epoch: self.epoch, log_idx: idx };
+        // same pointer seen before (tombstone or - allocator defect - still live)?
+        if let Some(s) = self.find(p) {
+            if self.table[s].state == 1 {
+                self.alloc_dup_live += 1;
+                return;
+            }
+            self.table[s] = new;
+        } else {
+            let mut s = slot_of(p);
+            let mut placed = false;
+            for _ in 0..TABLE_CAP {
+                if self.table[s].state == 0 {
+                    self.table[s] = new;
+                    placed = true;
+                    break;
+                }
+                s = (s + 1) & (TABLE_CAP - 1);
+            }
+            if !placed {
+                // table full of tombstones: recycle one on the probe path (loses double-free memory for it only)
+                let mut s = slot_of(p);
+                for _ in 0..TABLE_CAP {
+                    if self.table[s].state == 2 {
+                        self.table[s] = new;
+                        placed = true;
+                        break;
+                    }
+                    s = (s + 1) & (TABLE_CAP - 1);
+                }
+            }
+            if !placed {
+                self.table_overflow += 1;
+                return;
+            }
+        }
+        self.live_count += 1;
+        self.live_bytes += l.size() as u64;
+    }
+    /// returns true when the free may be forwarded to the real allocator
+    fn on_free(&mut self, p: usize, l: Layout, tid: u32) -> bool {
+        match self.find(p) {
+            None => {
+                self.nonlive_free += 1;
+                false
+            }
+            Some(s) => {
+                let e = self.table[s];
+                if e.state == 2 {
+                    self.double_free += 1;
+                    return false;
+                }
+                let mism = e.size != l.size() || e.align != l.align() as u32;
+                if mism {
+                    self.layout_mismatch += 1;
+                }
+                if e.log_epoch == self.epoch && e.log_idx != u32::MAX {
+                    let r = &mut self.log[e.log_idx as usize];
+                    r.free_tid = tid;
+                    if mism {
+                        r.mismatch = 1;
+                        r.d_size = l.size() as u64;
+                        r.d_align = l.align() as u32;
+                    }
+                } else if e.log_epoch != self.epoch {
+                    self.old_freed += 1;
+                }
+                self.table[s].state = 2;
+                self.live_count -= 1;
+                self.live_bytes -= e.size as u64;
+                true
+            }
+        }
+    }
+    fn new_epoch(&mut self) {
+        self.epoch += 1;
+        self.log_len = 0;
+        self.double_free = 0;
+        self.nonlive_free = 0;
+        self.layout_mismatch = 0;
+        self.alloc_dup_live = 0;
+        self.log_overflow = 0;
+        self.table_overflow = 0;
+        self.old_freed = 0;
+        self.null_allocs = 0;
+        // tombstones are only needed within a batch: clear them so that probing stays short
+        let mut live = [E0; 0];
+        let _ = &mut live;
+        let mut keep: usize = 0;
+        for i in 0..TABLE_CAP {
+            if self.table[i].state == 2 {
+                keep += 1;
+            }
+        }
+        if keep > TABLE_CAP / 4 {
+            self.rehash();
+        }
+    }
+    fn rehash(&mut self) {
+        // in-place rebuild without allocation: pull live entries out one at a time through the log-free path
+        // (TABLE_CAP is small: quadratic worst case is irrelevant, it runs between batches only)
+        for i in 0..TABLE_CAP {
+            if self.table[i].state == 2 {
+                self.table[i].state = 3; // "deleted, reusable" marker handled as tombstone for probing
+            }
+        }
+        // state 3 behaves like 2 for `find` (non-empty, ptr compared) but may be recycled at once
+        for i in 0..TABLE_CAP {
+            if self.table[i].state == 3 {
+                self.table[i].ptr = 1; // never equal to a real pointer
+                self.table[i].state = 2;
+            }
+        }
+    }
+}
+
+unsafe impl GlobalAlloc for Counting {
+    unsafe fn alloc(&self, l: Layout) -> *mut u8 {
+        let tid = gettid();
+        let mut g = self.m.lock();
+        let p = g.dl.malloc(l.size(), l.align());
+        (*self.book.get()).on_alloc(p as usize, l, tid);
+        p
+    }
+    unsafe fn dealloc(&self, p: *mut u8, l: Layout) {
+        let tid = gettid();
+        let mut g = self.m.lock();
+        if (*self.book.get()).on_free(p as usize, l, tid) {
+            g.dl.free(p);
+        }
     }
 }
 
 #[global_allocator]
-static A: Counting = Counting(Mutex::new(Dlmalloc::new()));
+static A: Counting = Counting {
+    m: Mutex::new(Shared { dl: Dlmalloc::new() }),
+    book: UnsafeCell::new(Book {
+        table: [E0; TABLE_CAP],
+        log: [L0; LOG_CAP],
+        log_len: 0,
+        epoch: 0,
+        live_count: 0,
+        live_bytes: 0,
+        double_free: 0,
+        nonlive_free: 0,
+        layout_mismatch: 0,
+        alloc_dup_live: 0,
+        log_overflow: 0,
+        table_overflow: 0,
+        old_freed: 0,
+        null_allocs: 0,
+    }),
+};
+
+fn with_book<R>(f: impl FnOnce(&mut Book) -> R) -> R {
+    let _g = A.m.lock();
+    unsafe { f(&mut *A.book.get()) }
+}
+
+// ------------------------------------------------------------------------------------------------
+// value family
+// ------------------------------------------------------------------------------------------------
+
+#[inline]
+fn splitmix(x: u64) -> u64 {
+    let x = x.wrapping_add(0x9E37_79B9_7F4A_7C15);
+    let mut z = x;
+    z = (z ^ (z >> 30)).wrapping_mul(0xBF58_476D_1CE4_E5B9);
+    z = (z ^ (z >> 27)).wrapping_mul(0x94D0_49BB_1331_11EB);
+    z ^ (z >> 31)
+}
+
+/// k-th byte of the stream generated by `tag`
+#[inline]
+fn sbyte(tag: u64, k: usize) -> u8 {
+    (splitmix(tag ^ ((k as u64) >> 3).wrapping_mul(0x1000_0000_01b3)) >> ((k & 7) * 8)) as u8
+}
+
+struct Fnv(u64);
+impl Fnv {
+    fn new() -> Self {
+        Fnv(0xcbf2_9ce4_8422_2325)
+    }
+    #[inline]
+    fn byte(&mut self, b: u8) {
+        self.0 = (self.0 ^ b as u64).wrapping_mul(0x0000_0100_0000_01b3);
+    }
+    fn bytes(&mut self, bs: &[u8]) {
+        for b in bs {
+            self.byte(*b);
+        }
+    }
+}
+
+trait Res: Send + 'static {
+    fn make(tag: u64) -> Self;
+    /// feed the logical bytes of the value (no padding); returns the number of bytes
+    fn feed(&self, h: &mut Fnv) -> u32;
+}
+
+impl Res for () {
+    fn make(_: u64) -> Self {}
+    fn feed(&self, _: &mut Fnv) -> u32 {
+        0
+    }
+}
+impl Res for u8 {
+    fn make(t: u64) -> Self {
+        sbyte(t, 0)
+    }
+    fn feed(&self, h: &mut Fnv) -> u32 {
+        h.byte(*self);
+        1
+    }
+}
+impl Res for u64 {
+    fn make(t: u64) -> Self {
+        let mut b = [0u8; 8];
+        for (k, x) in b.iter_mut().enumerate() {
+            *x = sbyte(t, k);
+        }
+        u64::from_le_bytes(b)
+    }
+    fn feed(&self, h: &mut Fnv) -> u32 {
+        h.bytes(&self.to_le_bytes());
+        8
+    }
+}
+impl<const N: usize> Res for [u8; N] {
+    fn make(t: u64) -> Self {
+        let mut b = [0u8; N];
+        for (k, x) in b.iter_mut().enumerate() {
+            *x = sbyte(t, k);
+        }
+        b
+    }
+    fn feed(&self, h: &mut Fnv) -> u32 {
+        h.bytes(self);
+        N as u32
+    }
+}
+impl Res for [u64; 512] {
+    fn make(t: u64) -> Self {
+        let mut v = [0u64; 512];
+        for (i, x) in v.iter_mut().enumerate() {
+            let mut b = [0u8; 8];
+            for (k, y) in b.iter_mut().enumerate() {
+                *y = sbyte(t, i * 8 + k);
+            }
+            *x = u64::from_le_bytes(b);
+        }
+        v
+    }
+    fn feed(&self, h: &mut Fnv) -> u32 {
+        for x in self.iter() {
+            h.bytes(&x.to_le_bytes());
+        }
+        4096
+    }
+}
+#[repr(align(64))]
+struct A64 {
+    a: u64,
+    b: u8,
+}
+impl Res for A64 {
+    fn make(t: u64) -> Self {
+        A64 { a: <u64 as Res>::make(t), b: sbyte(t, 8) }
+    }
+    fn feed(&self, h: &mut Fnv) -> u32 {
+        h.bytes(&self.a.to_le_bytes());
+        h.byte(self.b);
+        9
+    }
+}
+#[repr(align(4096))]
+struct A4096 {
+    a: u64,
+    b: [u8; 16],
+}
+impl Res for A4096 {
+    fn make(t: u64) -> Self {
+        let mut b = [0u8; 16];
+        for (k, x) in b.iter_mut().enumerate() {
+            *x = sbyte(t, 8 + k);
+        }
+        A4096 { a: <u64 as Res>::make(t), b }
+    }
+    fn feed(&self, h: &mut Fnv) -> u32 {
+        h.bytes(&self.a.to_le_bytes());
+        h.bytes(&self.b);
+        24
+    }
+}
+impl Res for Vec<u8> {
+    fn make(t: u64) -> Self {
+        let n = (splitmix(t ^ 0x0abc) % 301) as usize;
+        let mut v = Vec::with_capacity(n);
+        for k in 0..n {
+            v.push(sbyte(t, k));
+        }
+        v
+    }
+    fn feed(&self, h: &mut Fnv) -> u32 {
+        h.bytes(self);
+        self.len() as u32
+    }
+}
+
+enum H {
+    T0(JoinHandle<()>),
+    T1(JoinHandle<u8>),
+    T2(JoinHandle<u64>),
+    T3(JoinHandle<[u8; 3]>),
+    T4(JoinHandle<[u8; 24]>),
+    T5(JoinHandle<[u64; 512]>),
+    T6(JoinHandle<A64>),
+    T7(JoinHandle<A4096>),
+    T8(JoinHandle<Vec<u8>>),
+}
+
+// ------------------------------------------------------------------------------------------------
+// specs, per-thread slots
+// ------------------------------------------------------------------------------------------------
+
+const MAXN: usize = 64;
+
+#[derive(Clone, Copy)]
+struct Spec {
+    ty: u8,
+    behave: u8, // 0 return, 1 panic
+    disp: u8,   // 0 join, 1 drop now, 2 drop later, 3 keep until the end then join, 4 drop "while finishing" (= 2 for the probe)
+    inline: u8, // 1: the disposition is carried out before the next spawn
+    cdk: u8,
+    pdk: u8,
+    buflen: u16,
+    cda: u32,
+    pda: u32,
+    tag: u64,
+}
+const SPEC_BYTES: usize = 32;
+
+impl Spec {
+    fn parse(b: &[u8]) -> Spec {
+        Spec {
+            ty: b[0],
+            behave: b[1],
+            disp: b[2],
+            inline: b[3],
+            cdk: b[4],
+            pdk: b[5],
+            buflen: u16::from_le_bytes([b[6], b[7]]),
+            cda: u32::from_le_bytes([b[8], b[9], b[10], b[11]]),
+            pda: u32::from_le_bytes([b[12], b[13], b[14], b[15]]),
+            tag: u64::from_le_bytes([b[16], b[17], b[18], b[19], b[20], b[21], b[22], b[23]]),
+        }
+    }
+}
+
+const Z32: AtomicU32 = AtomicU32::new(0);
+const Z64: AtomicU64 = AtomicU64::new(0);
+static RUN: [AtomicU32; MAXN] = [Z32; MAXN];
+static TID: [AtomicU32; MAXN] = [Z32; MAXN];
+static CANARY_ADDR: [AtomicU64; MAXN] = [Z64; MAXN];
+static ALIVE: AtomicU32 = AtomicU32::new(0);
+static MAX_ALIVE: AtomicU32 = AtomicU32::new(0);
+static EPOCH: AtomicU64 = AtomicU64::new(0);
+
+#[derive(Clone, Copy)]
+struct Clo {
+    i: usize,
+    tag: u64,
+    cdk: u8,
+    behave: u8,
+    cda: u32,
+    buf: usize,
+    buflen: usize,
+    magic: u64,
+}
+
+fn delay(kind: u8, amt: u32) {
+    match kind {
+        1 => {
+            let mut x = 0u32;
+            for _ in 0..amt {
+                x = black_box(x.wrapping_add(1));
+            }
+            black_box(x);
+        }
+        2 => {
+            let ns = if amt > 2_000_000 { 2_000_000 } else { amt };
+            let ts: [u64; 2] = [0, ns as u64];
+            unsafe {
+                sc::syscall!(NANOSLEEP, ts.as_ptr(), 0);
+            }
+        }
+        _ => {}
+    }
+}
+
+fn canary_magic(tag: u64, epoch: u64, i: usize) -> u64 {
+    splitmix(tag ^ splitmix(epoch ^ ((i as u64) << 48))) | 1
+}
+
+#[inline(never)]
+fn body<T: Res>(c: Clo) -> T {
+    RUN[c.i].fetch_add(1, SeqCst);
+    TID[c.i].store(gettid(), SeqCst);
+    let a = ALIVE.fetch_add(1, SeqCst) + 1;
+    MAX_ALIVE.fetch_max(a, SeqCst);
+    // a word on this thread's own stack: if it is still readable with this value after the thread is gone, the
+    // stack page was never unmapped (a fresh anonymous mapping at the same address would read 0)
+    let mut can = [0u64; 2];
+    unsafe {
+        core::ptr::write_volatile(can.as_mut_ptr(), c.magic);
+    }
+    CANARY_ADDR[c.i].store(can.as_ptr() as u64, SeqCst);
+    // memory effect the parent checks after join
+    let p = c.buf as *mut u8;
+    for k in 0..c.buflen {
+        unsafe {
+            p.add(k).write(sbyte(c.tag ^ 0x5eed, k));
+        }
+    }
+    delay(c.cdk, c.cda);
+    black_box(&can);
+    ALIVE.fetch_sub(1, SeqCst);
+    if c.behave == 1 {
+        panic!("generated panic");
+    }
+    T::make(c.tag)
+}
+
+static CLOSZ: [AtomicU32; MAXN] = [Z32; MAXN];
+
+fn spawn_t<T: Res>(c: Clo) -> Result<JoinHandle<T>, i32> {
+    let f = move || body::<T>(c);
+    CLOSZ[c.i].store(core::mem::size_of_val(&f) as u32, SeqCst);
+    REC_SPEC.store(c.i as u32 + 1, SeqCst);
+    let r = tiny_std::thread::spawn(f);
+    REC_SPEC.store(0, SeqCst);
+    match r {
+        Ok(h) => Ok(h),
+        Err(e) => Err(match e {
+            tiny_std::Error::Os { code, .. } => code.raw(),
+            _ => -1,
+        }),
+    }
+}
+
+fn spawn_spec(ty: u8, c: Clo) -> Result<H, i32> {
+    Ok(match ty {
+        0 => H::T0(spawn_t(c)?),
+        1 => H::T1(spawn_t(c)?),
+        2 => H::T2(spawn_t(c)?),
+        3 => H::T3(spawn_t(c)?),
+        4 => H::T4(spawn_t(c)?),
+        5 => H::T5(spawn_t(c)?),
+        6 => H::T6(spawn_t(c)?),
+        7 => H::T7(spawn_t(c)?),
+        _ => H::T8(spawn_t(c)?),
+    })
+}
+
+/// (class: 1 None, 2 Some; hash; len)
+fn join_t<T: Res>(h: JoinHandle<T>) -> (u8, u64, u32) {
+    match h.join() {
+        None => (1, 0, 0),
+        Some(v) => {
+            let mut f = Fnv::new();
+            let n = v.feed(&mut f);
+            (2, f.0, n)
+        }
+    }
+}
+
+fn join_h(h: H) -> (u8, u64, u32) {
+    match h {
+        H::T0(h) => join_t(h),
+        H::T1(h) => join_t(h),
+        H::T2(h) => join_t(h),
+        H::T3(h) => join_t(h),
+        H::T4(h) => join_t(h),
+        H::T5(h) => join_t(h),
+        H::T6(h) => join_t(h),
+        H::T7(h) => join_t(h),
+        H::T8(h) => join_t(h),
+    }
+}
+
+// ------------------------------------------------------------------------------------------------
+// plumbing
+// ------------------------------------------------------------------------------------------------
+
+fn read_exact(buf: &mut [u8]) -> bool {
+    let mut off = 0;
+    while off < buf.len() {
+        match rusl::unistd::read(STDIN, &mut buf[off..]) {
+            Ok(0) => return false,
+            Ok(n) => off += n,
+            Err(e) => {
+                if e.code == Some(rusl::error::Errno::EINTR) {
+                    continue;
+                }
+                return false;
+            }
+        }
+    }
+    true
+}
+
+fn write_all(buf: &[u8]) -> bool {
+    let mut off = 0;
+    while off < buf.len() {
+        match rusl::unistd::write(STDOUT, &buf[off..]) {
+            Ok(0) => return false,
+            Ok(n) => off += n,
+            Err(e) => {
+                if e.code == Some(rusl::error::Errno::EINTR) {
+                    continue;
+                }
+                return false;
+            }
+        }
+    }
+    true
+}
+
+const OUT_CAP: usize = 512 * 1024;
+struct Out {
+    buf: UnsafeCell<[u8; OUT_CAP]>,
+    len: UnsafeCell<usize>,
+}
+unsafe impl Sync for Out {}
+static OUT: Out = Out { buf: UnsafeCell::new([0; OUT_CAP]), len: UnsafeCell::new(4) };
+
+fn o_bytes(b: &[u8]) {
+    unsafe {
+        let len = &mut *OUT.len.get();
+        let buf = &mut *OUT.buf.get();
+        if *len + b.len() <= OUT_CAP {
+            buf[*len..*len + b.len()].copy_from_slice(b);
+            *len += b.len();
+        }
+    }
+}
+fn o8(v: u8) {
+    o_bytes(&[v]);
+}
+fn o32(v: u32) {
+    o_bytes(&v.to_le_bytes());
+}
+fn o64(v: u64) {
+    o_bytes(&v.to_le_bytes());
+}
+fn o_flush() -> bool {
+    unsafe {
+        let len = &mut *OUT.len.get();
+        let buf = &mut *OUT.buf.get();
+        let n = (*len - 4) as u32;
+        buf[0..4].copy_from_slice(&n.to_le_bytes());
+        let ok = write_all(&buf[..*len]);
+        *len = 4;
+        ok
+    }
+}
+
+const PROC_CAP: usize = 1 << 20;
+struct ProcBuf(UnsafeCell<[u8; PROC_CAP]>);
+unsafe impl Sync for ProcBuf {}
+static PROC: ProcBuf = ProcBuf(UnsafeCell::new([0; PROC_CAP]));
+
+/// reads a /proc file (NUL-terminated path) into the static buffer
+fn slurp(path: &[u8]) -> &'static [u8] {
+    unsafe {
+        let buf = &mut *PROC.0.get();
+        let fd = sc::syscall!(OPEN, path.as_ptr(), 0 /* O_RDONLY */) as isize;
+        if fd < 0 {
+            return &buf[..0];
+        }
+        let mut off = 0usize;
+        loop {
+            if off == PROC_CAP {
+                break;
+            }
+            let n = sc::syscall!(READ, fd, buf.as_mut_ptr().add(off), PROC_CAP - off) as isize;
+            if n == -4 {
+                continue;
+            }
+            if n <= 0 {
+                break;
+            }
+            off += n as usize;
+        }
+        sc::syscall!(CLOSE, fd);
+        &buf[..off]
+    }
+}
+
+fn parse_dec(b: &[u8]) -> u64 {
+    let mut v = 0u64;
+    let mut started = false;
+    for &c in b {
+        if c.is_ascii_digit() {
+            v = v * 10 + (c - b'0') as u64;
+            started = true;
+        } else if started {
+            break;
+        }
+    }
+    v
+}
+fn parse_hex(b: &[u8]) -> (u64, usize) {
+    let mut v = 0u64;
+    let mut n = 0;
+    for &c in b {
+        let d = match c {
+            b'0'..=b'9' => c - b'0',
+            b'a'..=b'f' => c - b'a' + 10,
+            _ => break,
+        };
+        v = (v << 4) | d as u64;
+        n += 1;
+    }
+    (v, n)
+}
+
+fn nthreads() -> u64 {
+    let s = slurp(b"/proc/self/status\0");
+    let key = b"Threads:";
+    let mut i = 0;
+    while i + key.len() <= s.len() {
+        if &s[i..i + key.len()] == key && (i == 0 || s[i - 1] == b'\n') {
+            return parse_dec(&s[i + key.len()..]);
+        }
+        i += 1;
+    }
+    0
+}
+
+/// (lines, anonymous rw-p bytes, total mapped bytes)
+fn maps_stats() -> (u64, u64, u64) {
+    let s = slurp(b"/proc/self/maps\0");
+    let (mut lines, mut anon, mut total) = (0u64, 0u64, 0u64);
+    for line in s.split(|c| *c == b'\n') {
+        if line.is_empty() {
+            continue;
+        }
+        lines += 1;
+        let (a, n1) = parse_hex(line);
+        let (b, n2) = parse_hex(&line[n1 + 1..]);
+        let rest = &line[n1 + 1 + n2..];
+        total += b - a;
+        // " rw-p 00000000 00:00 0 <spaces>[name]"
+        let is_rw = rest.len() > 5 && &rest[1..5] == b"rw-p";
+        let has_name = rest.iter().any(|c| *c == b'/' || *c == b'[');
+        if is_rw && !has_name {
+            anon += b - a;
+        }
+    }
+    (lines, anon, total)
+}
+
+fn vmsize_pages() -> u64 {
+    parse_dec(slurp(b"/proc/self/statm\0"))
+}
+
+fn sleep_ns(ns: u64) {
+    let ts: [u64; 2] = [0, ns];
+    unsafe {
+        sc::syscall!(NANOSLEEP, ts.as_ptr(), 0);
+    }
+}
+
+/// 0 = address unmapped, 1 = mapped with other content, 2 = mapped and still holding `magic`
+fn probe_canary(pipe: (usize, usize), addr: u64, magic: u64) -> u8 {
+    if addr == 0 {
+        return 0;
+    }
+    unsafe {
+        let w = sc::syscall!(WRITE, pipe.1, addr as usize, 8) as isize;
+        if w != 8 {
+            return 0;
+        }
+        let mut b = [0u8; 8];
+        let r = sc::syscall!(READ, pipe.0, b.as_mut_ptr(), 8) as isize;
+        if r == 8 && u64::from_le_bytes(b) == magic {
+            2
+        } else {
+            1
+        }
+    }
+}
+
+static IN: ProcBuf = ProcBuf(UnsafeCell::new([0; PROC_CAP]));
+
+// ------------------------------------------------------------------------------------------------
+// main
+// ------------------------------------------------------------------------------------------------
+
+fn hash_buf(p: usize, n: usize) -> u64 {
+    let mut f = Fnv::new();
+    for k in 0..n {
+        f.byte(unsafe { core::ptr::read_volatile((p as *const u8).add(k)) });
+    }
+    f.0
+}
+
+struct PerSpec {
+    spawn_errno: i32,
+    join_class: u8,
+    vhash: u64,
+    vlen: u32,
+    buf_join: u64,
+    buf: usize,
+}
 
 #[no_mangle]
 pub fn main() -> i32 {
-    let h = tiny_std::thread::spawn(|| 7u64).unwrap();
-    let v = h.join();
-    tiny_std::println!("probe-threads skeleton {:?}", v);
-    0
+    MAIN_TID.store(gettid(), SeqCst);
+    // reserve: a 6 MiB free chunk pinned below a live block, so that the batches are served without the
+    // allocator growing or trimming its segments (keeps VmSize comparable between batches)
+    let pin;
+    unsafe {
+        let big = alloc::alloc::alloc(Layout::from_size_align_unchecked(6 << 20, 8));
+        pin = alloc::alloc::alloc(Layout::from_size_align_unchecked(64, 8));
+        if big.is_null() || pin.is_null() {
+            return 3;
+        }
+        alloc::alloc::dealloc(big, Layout::from_size_align_unchecked(6 << 20, 8));
+    }
+    black_box(pin);
+    let mut pfds = [0i32; 2];
+    unsafe {
+        if (sc::syscall!(PIPE2, pfds.as_mut_ptr(), 0) as isize) < 0 {
+            return 4;
+        }
+    }
+    let pipe = (pfds[0] as usize, pfds[1] as usize);
+
+    // hello
+    let (lines, anon, total) = maps_stats();
+    o8(0x10);
+    o32(MAIN_TID.load(SeqCst));
+    o32(unsafe { sc::syscall!(GETPID) as u32 });
+    o64(lines);
+    o64(anon);
+    o64(total);
+    o64(vmsize_pages());
+    let (lc, lb) = with_book(|b| (b.live_count, b.live_bytes));
+    o64(lc);
+    o64(lb);
+    if !o_flush() {
+        return 5;
+    }
+
+    let inbuf = unsafe { &mut *IN.0.get() };
+    loop {
+        let mut l4 = [0u8; 4];
+        if !read_exact(&mut l4) {
+            return 0;
+        }
+        let len = u32::from_le_bytes(l4) as usize;
+        if len == 0 || len > PROC_CAP || !read_exact(&mut inbuf[..len]) {
+            return 6;
+        }
+        if inbuf[0] != 1 {
+            return 0;
+        }
+        let n = inbuf[1] as usize;
+        if n == 0 || n > MAXN || len < 4 + n * SPEC_BYTES {
+            return 7;
+        }
+        let mut specs = [Spec { ty: 0, behave: 0, disp: 0, inline: 0, cdk: 0, pdk: 0, buflen: 0, cda: 0, pda: 0, tag: 0 }; MAXN];
+        for i in 0..n {
+            specs[i] = Spec::parse(&inbuf[4 + i * SPEC_BYTES..4 + (i + 1) * SPEC_BYTES]);
+        }
+        run_batch(&specs[..n], pipe);
+        if !o_flush() {
+            return 5;
+        }
+    }
+}
+
+fn run_batch(specs: &[Spec], pipe: (usize, usize)) {
+    let n = specs.len();
+    let epoch = EPOCH.fetch_add(1, SeqCst) + 1;
+    for i in 0..MAXN {
+        RUN[i].store(0, SeqCst);
+        TID[i].store(0, SeqCst);
+        CANARY_ADDR[i].store(0, SeqCst);
+        CLOSZ[i].store(0, SeqCst);
+    }
+    MAX_ALIVE.store(0, SeqCst);
+    let (lc0, lb0) = with_book(|b| {
+        b.new_epoch();
+        (b.live_count, b.live_bytes)
+    });
+
+    const NONE_H: Option<H> = None;
+    let mut handles: [Option<H>; MAXN] = [NONE_H; MAXN];
+    const PS0: PerSpec = PerSpec { spawn_errno: 0, join_class: 0, vhash: 0, vlen: 0, buf_join: 0, buf: 0 };
+    let mut ps: [PerSpec; MAXN] = [PS0; MAXN];
+
+    // heap buffers for the memory effects (allocated and freed by the main thread inside the batch)
+    for i in 0..n {
+        let bl = specs[i].buflen as usize;
+        if bl > 0 {
+            let p = unsafe { alloc::alloc::alloc_zeroed(Layout::from_size_align_unchecked(bl, 1)) };
+            ps[i].buf = p as usize;
+        }
+    }
+
+    let mut finish = |i: usize, handles: &mut [Option<H>; MAXN], ps: &mut [PerSpec; MAXN], join: bool| {
+        if let Some(h) = handles[i].take() {
+            if join {
+                let (c, hsh, l) = join_h(h);
+                ps[i].join_class = c;
+                ps[i].vhash = hsh;
+                ps[i].vlen = l;
+                ps[i].buf_join = hash_buf(ps[i].buf, specs[i].buflen as usize);
+            } else {
+                drop(h);
+            }
+        }
+    };
+
+    // phase 1: spawn in order; "drop now" and inline dispositions are carried out before the next spawn
+    for i in 0..n {
+        let s = &specs[i];
+        let c = Clo {
+            i,
+            tag: s.tag,
+            cdk: s.cdk,
+            behave: s.behave,
+            cda: s.cda,
+            buf: ps[i].buf,
+            buflen: if ps[i].buf == 0 { 0 } else { s.buflen as usize },
+            magic: canary_magic(s.tag, epoch, i),
+        };
+        match spawn_spec(s.ty, c) {
+            Ok(h) => handles[i] = Some(h),
+            Err(e) => ps[i].spawn_errno = if e == 0 { -1 } else { e },
+        }
+        if s.disp == 1 {
+            finish(i, &mut handles, &mut ps, false);
+        } else if s.inline == 1 && s.disp != 3 {
+            delay(s.pdk, s.pda);
+            finish(i, &mut handles, &mut ps, s.disp == 0);
+        }
+    }
+    // phase 2: remaining joins / drops in spec order, each after its parent delay
+    for i in 0..n {
+        let s = &specs[i];
+        if handles[i].is_some() && s.disp != 3 {
+            delay(s.pdk, s.pda);
+            finish(i, &mut handles, &mut ps, s.disp == 0);
+        }
+    }
+    // phase 3: handles kept until the end of the batch
+    for i in 0..n {
+        if handles[i].is_some() {
+            finish(i, &mut handles, &mut ps, true);
+        }
+    }
+
+    // wait until every thread of the batch is really gone (a dropped-handle thread may still be exiting)
+    let mut polls = 0u32;
+    let mut drained = 0u8;
+    let mut left = 0u64;
+    while polls < 20_000 {
+        left = nthreads();
+        if left == 1 {
+            drained = 1;
+            break;
+        }
+        polls += 1;
+        sleep_ns(if polls < 50 { 20_000 } else { 1_000_000 });
+    }
+
+    // buffers: hash after drain, then free
+    let mut buf_drain = [0u64; MAXN];
+    for i in 0..n {
+        let bl = specs[i].buflen as usize;
+        if ps[i].buf != 0 {
+            buf_drain[i] = hash_buf(ps[i].buf, bl);
+            unsafe { alloc::alloc::dealloc(ps[i].buf as *mut u8, Layout::from_size_align_unchecked(bl, 1)) };
+        }
+    }
+    let mut canary = [0u8; MAXN];
+    if drained == 1 {
+        for i in 0..n {
+            canary[i] = probe_canary(pipe, CANARY_ADDR[i].load(SeqCst), canary_magic(specs[i].tag, epoch, i));
+        }
+    }
+    let (lines, anon, total) = maps_stats();
+    let vm = vmsize_pages();
+
+    // report
+    o8(0x11);
+    o8(n as u8);
+    o8(drained);
+    o8(0);
+    o32(polls);
+    o64(left);
+    o32(MAX_ALIVE.load(SeqCst));
+    o64(lines);
+    o64(anon);
+    o64(total);
+    o64(vm);
+    o64(lc0);
+    o64(lb0);
+    let _g = A.m.lock();
+    let b = unsafe { &mut *A.book.get() };
+    o64(b.live_count);
+    o64(b.live_bytes);
+    o32(b.double_free);
+    o32(b.nonlive_free);
+    o32(b.layout_mismatch);
+    o32(b.alloc_dup_live);
+    o32(b.log_overflow);
+    o32(b.table_overflow);
+    o32(b.old_freed);
+    o32(b.null_allocs);
+    for i in 0..n {
+        o32(ps[i].spawn_errno as u32);
+        o8(ps[i].join_class);
+        o8(canary[i]);
+        o8(0);
+        o8(0);
+        o32(RUN[i].load(SeqCst));
+        o32(TID[i].load(SeqCst));
+        o64(ps[i].vhash);
+        o32(ps[i].vlen);
+        o32(CLOSZ[i].load(SeqCst));
+        o64(ps[i].buf_join);
+        o64(buf_drain[i]);
+        o64(CANARY_ADDR[i].load(SeqCst));
+    }
+    o32(b.log_len as u32);
+    for k in 0..b.log_len {
+        let r = b.log[k];
+        o64(r.ptr);
+        o64(r.size);
+        o32(r.align);
+        o32(r.alloc_tid);
+        o32(r.free_tid);
+        o8(r.spec);
+        o8(r.mismatch);
+        o8(0);
+        o8(0);
+        o64(r.d_size);
+        o32(r.d_align);
+    }
 }
